@@ -14,7 +14,7 @@ import random
 import torch
 
 from .. import closed_forms as cf
-from .. import probes, zoo
+from .. import env, probes, zoo
 
 ID = "C09"
 LEVEL = "exploration"
@@ -27,7 +27,8 @@ ASSUMPTIONS = ["gradient error = relative RMS over B=128 paths of the per-path g
                "(order-0.5 adjoint solvers) / 0.05 (others); or already below 2e-3 at every level",
                "closed-form gradients by autograd through vt/closed_forms.py exact solutions"]
 REQUIRED_COUNTERS = ["forward_equal_checks", "logqp_forward_checks", "gradient_ladders", "subset_losses",
-                     "neural_reference_ladders", "selectivity_cases", "pairs_ito", "pairs_stratonovich"]
+                     "neural_reference_ladders", "selectivity_cases", "pairs_ito", "pairs_stratonovich",
+                     "forward_list_ts_under_default_f32", "forward_equal_adaptive_checks"]
 THRESHOLDS = {"slope": 0.2, "final_half": 0.15, "final_one": 0.05, "final_over_first": 0.5, "already_small": 2e-3}
 
 ITO_FWD = ["euler", "milstein", "srk"]
@@ -86,14 +87,34 @@ def run_forward(case):
     entropy = rng.randrange(1, 10 ** 9)
     y0 = torch.randn(B, d, generator=torch.Generator().manual_seed(case["rseed"]))
     levy = zoo.levy_for(cell["method"])
+    # a share of the cases hands the times over as a Python list under PyTorch's default dtype float32 (data float64):
+    # both entry points must take the times in y0's dtype
+    lists = rng.random() < 0.4
+    cnt["forward_list_ts_under_default_f32"] = int(lists)
+    tsx = tsl if lists else ts
     for logqp in (False, True):
         msize = sde.m + (1 if (logqp and cell["noise_type"] == "diagonal") else 0)
 
         def mk():
-            return torchsde.BrownianInterval(0.0, 0.5, size=(B, msize), entropy=entropy, levy_area_approximation=levy)
-        with torch.no_grad():
-            ref = zoo.solve(cell, sde, y0, ts, dt, bm=mk(), logqp=logqp, extra=True)
-        out = zoo.solve(cell, sde, y0.clone().requires_grad_(True), ts, dt, bm=mk(), logqp=logqp, extra=True, adjoint=True)
+            return torchsde.BrownianInterval(0.0, 0.5, size=(B, msize), entropy=entropy, levy_area_approximation=levy,
+                                             dtype=torch.float64)
+        with env.default_dtype(torch.float32 if lists else torch.float64):
+            with torch.no_grad():
+                ref = zoo.solve(cell, sde, y0, tsx, dt, bm=mk(), logqp=logqp, extra=True)
+            out = zoo.solve(cell, sde, y0.clone().requires_grad_(True), tsx, dt, bm=mk(), logqp=logqp, extra=True,
+                            adjoint=True)
+        # the same with adaptive stepping (the forward pass of the adjoint is the plain adaptive solve)
+        akw = dict(adaptive=True, rtol=1e-3, atol=1e-4, dt_min=1e-4)
+        with env.default_dtype(torch.float32 if lists else torch.float64):
+            with torch.no_grad():
+                ref_a = zoo.solve(cell, sde, y0, tsx, dt, bm=mk(), logqp=logqp, **akw)
+            out_a = zoo.solve(cell, sde, y0.clone().requires_grad_(True), tsx, dt, bm=mk(), logqp=logqp, adjoint=True,
+                              adjoint_rtol=1e-1, adjoint_atol=1e-1, **akw)
+        ra, oa = (ref_a, out_a) if logqp else ((ref_a,), (out_a,))
+        cnt["forward_equal_adaptive_checks"] = cnt.get("forward_equal_adaptive_checks", 0) + 1
+        if not all(torch.equal(a, b.detach()) for a, b in zip(ra, oa)):
+            viol.append({"mechanism": "adjoint_forward_differs_from_sdeint:adaptive",
+                         "detail": f"cell={zoo.cell_name(cell)} ts={tsl} dt={dt} logqp={logqp}"})
         names = ["ys"] + (["logqp"] if logqp else []) + ["extra"]
         for nm, a, b in zip(names, ref, out):
             if nm == "extra":
